@@ -21,7 +21,8 @@
    per unit: every operation with a foreign argument (demand: one of the refusals the signature can
    express, arguments unchanged) and with the nil forms (typed nil *T, **T to nil, nil **T, nil);
    per value with a non-empty collection: two histories of reads sharing one key buffer (ops seqf / seq,
-   see "histories of reads" below). *)
+   see "histories of reads" below); per value in which a GetTo stores an answer: one history of GetTo calls that
+   share ONE result buffer (see "histories that share one result buffer" below). *)
 From Coq Require Import List Bool String Ascii ZArith Arith.
 From Verif Require Import Util Ints Strconv Floats Node GoSrc Value Outcome Nav LC LCSpec Get GetSpec Cmp CmpSpec
   Loop LoopSpec Deq DeqSpec InsReset InsCopy EmptySpec FormsSpec Api ApiSeq Shapes EnumVal GenUnits
@@ -206,14 +207,21 @@ Definition pure_line (u id tags form value spec : string) (is : list inner) : st
      step = loop;<canon>;<wants>;<ctls>;<path>        Loop over the object          (store object 0)
             oloop;<canon>;<wants>;<ctls>;<path>       Loop over a second object of the same type and value  (store object 1)
             xloop;<Type2>;<value2>;<canon>;<wants>;<ctls>;<path>   Loop over a partner object of another unit (store object 2..)
-            get;<path>  getto;<path>                  on the object
-     ONE key buffer is handed to every Loop of a history.
+            get;<path>  getto;<path>                  on the object (a result buffer of its own)
+            bgetto;<path>                             GetTo on the object           with the result buffer of the history
+            obgetto;<path>                            GetTo on the second object    with the result buffer of the history
+            xbgetto;<Type2>;<value2>;<path>           GetTo on a partner object     with the result buffer of the history
+     ONE key buffer is handed to every Loop of a history, ONE result buffer to every bgetto / obgetto / xbgetto.
    observation
      seqf   alone=<v><p><pp>.<v><p><pp>...;same=<v><p><pp>.<v><p><pp>...    per step
      seq    <step observation>#<step observation>...;same=<bit per step>
-   The model column is Model/ApiSeq.run on the store of the history; the demand is FormsSpec.history_demand:
-   no step changes any object, so every step answers what it answers alone, in every form. *)
-Record hstep := HStep { hs_tag : string; hs_text : string; hs_step : ApiSeq.step; hs_pr : option answer -> string }.
+   The model column is Model/ApiSeq.brun on the store of the history (the result buffer starts with the caller's
+   sentinel in it); the demand is FormsSpec.history_demand: no step changes any object, so every step answers what it
+   answers alone, in every form (a step that is handed the shared result buffer and stores nothing alone: leaves the
+   buffer exactly as it was). *)
+Record hstep := HStep { hs_tag : string; hs_text : string; hs_step : ApiSeq.bstep; hs_pr : option answer -> string;
+                        (* a GetTo that is handed the shared result buffer: node and value of its object, path *)
+                        hs_sh : option (node * val * list string) }.
 
 Definition pr_loop_ans (d : ldemand) (a : option answer) : string :=
   match a with
@@ -246,11 +254,15 @@ Definition key_class (d : ldemand) : string :=
 Definition loop_step (kw : string) (obj : nat) (n : node) (v : val) (c : string) (path : list string) : hstep :=
   let d := loop_demand n v path in
   HStep ("k:" ++ key_class d) (kw ++ ";" ++ canon_of d ++ ";1;" ++ c ++ ";" ++ path_text path)
-        (obj, KLoop (script_of "1" c) id_ord path) (pr_loop_ans d).
+        (obj, HCall (KLoop (script_of "1" c) id_ord path)) (pr_loop_ans d) None.
 
 Definition get_step (to : bool) (n : node) (v : val) (path : list string) : hstep :=
-  if to then HStep "getto" ("getto;" ++ path_text path) (0%nat, KGetTo path (Some sentinel)) (pr_get_ans n v path)
-  else HStep "get" ("get;" ++ path_text path) (0%nat, KGet path) (pr_get_ans n v path).
+  if to then HStep "getto" ("getto;" ++ path_text path) (0%nat, HCall (KGetTo path (Some sentinel))) (pr_get_ans n v path) None
+  else HStep "get" ("get;" ++ path_text path) (0%nat, HCall (KGet path)) (pr_get_ans n v path) None.
+
+(* GetTo with the result buffer of the history on object [obj] of the store *)
+Definition bget_step (tag kw : string) (obj : nat) (n : node) (v : val) (path : list string) : hstep :=
+  HStep tag (kw ++ ";" ++ path_text path) (obj, HGetTo path) (pr_get_ans n v path) (Some (n, v, path)).
 
 Definition end_paths (n : node) (v : val) : list (list string) :=
   map fst (filter (fun pt : tagged => String.eqb (snd pt) "end") (paths n v)).
@@ -350,22 +362,72 @@ Fixpoint store_eqb (a b : ApiSeq.store) : bool :=
   | _, _ => false
   end.
 
-(* per step: the answer inside the history, and whether every object is as it was *)
-Definition hist_run (s : ApiSeq.store) (hs : list hstep) : list (string * bool) :=
-  map (fun x : hstep * (option answer * ApiSeq.store) => (hs_pr (fst x) (fst (snd x)), store_eqb (snd (snd x)) s))
-      (combine hs (ApiSeq.run s (map hs_step hs))).
+(* the content of the result buffer, structurally *)
+Definition ref_eqb (a b : ref) : bool :=
+  val_same (r_val a) (r_val b) && loc_eqb (r_loc a) (r_loc b) && Bool.eqb (r_copy a) (r_copy b).
+Definition buf_eqb (a b : option ref) : bool :=
+  match a, b with None, None => true | Some x, Some y => ref_eqb x y | _, _ => false end.
 
-Definition seq_model (r : list (string * bool)) : string :=
-  if existsb (fun x => String.eqb (fst x) "?") r then "?"
-  else seps "#" (map fst r) ++ ";same=" ++ String.concat "" (map (fun x => bit (snd x)) r).
+(* the buffer of a history holds the caller's sentinel when the first step starts *)
+Definition rb0 : option ref := Some sentinel.
+
+(* a GetTo alone, handed a buffer with the sentinel: did it store anything *)
+Definition stores_alone (s : ApiSeq.store) (st : ApiSeq.bstep) : bool :=
+  match ApiSeq.balone s rb0 st with
+  | Some (AnsRef (Ret (Some r) _)) | Some (AnsRef (Fall (Some r))) => negb (is_sentinel r)
+  | _ => false
+  end.
+
+(* per step: the answer inside the history, whether every object is as it was, whether the result buffer is *)
+Record hres := HRes { hr_txt : string; hr_same : bool; hr_unt : bool }.
+
+(* [rb]: the result buffer before the step; [org]: the object (index in the store, node) the reference in it was made
+   from - what the buffer denotes is printed with that object's node, and it is the live element of the step's path
+   only if it was made from the step's own object *)
+Fixpoint hist_pr (s : ApiSeq.store) (rb : option ref) (org : option (nat * node))
+                 (l : list (hstep * (option answer * ApiSeq.store * option ref))) : list hres :=
+  match l with
+  | [] => []
+  | (h, (a, s', rb')) :: r =>
+    match hs_sh h with
+    | None => HRes (hs_pr h a) (store_eqb s' s) true :: hist_pr s rb' org r
+    | Some (n, v, path) =>
+      let i := fst (hs_step h) in
+      let org' := if stores_alone s (hs_step h) then Some (i, n) else org in
+      let '(oi, on) := match org' with Some x => x | None => (i, n) end in
+      let txt := match a with
+                 | Some (AnsRef o) => GenC01.pr_out on (if Nat.eqb oi i then elem_loc n v path else None) o
+                 | _ => "?"
+                 end in
+      HRes txt (store_eqb s' s) (buf_eqb rb rb') :: hist_pr s rb' org' r
+    end
+  end.
+
+Definition hist_run (s : ApiSeq.store) (hs : list hstep) : list hres :=
+  hist_pr s rb0 None (combine hs (ApiSeq.brun s rb0 (map hs_step hs))).
+
+Definition seq_model (r : list hres) : string :=
+  if existsb (fun x => String.eqb (hr_txt x) "?") r then "?"
+  else seps "#" (map hr_txt r) ++ ";same=" ++ String.concat "" (map (fun x => bit (hr_same x)) r).
+
+(* the step alone on fresh objects with a fresh buffer *)
+Definition alone_txt (sp : ApiSeq.store) (h : hstep) : string :=
+  match hist_run sp [h] with x :: _ => strip_live (hr_txt x) | [] => "?" end.
+
+Definition nothing_stored : string := "e=nil;v=same".
 
 (* [per]: the runs of the history by value, by pointer, by pointer-to-pointer *)
-Definition seqf_model (sp : ApiSeq.store) (per : list (list (string * bool))) (hs : list hstep) : string :=
-  let al := map (fun h => strip_live (hs_pr h (ApiSeq.alone sp (hs_step h)))) hs in
-  let col (i : nat) (g : string * bool -> string -> bool) : string :=
-    String.concat "" (map (fun r => bit (g (nth i r ("?", false)) (nth i al "?"))) per) in
-  "alone=" ++ seps "." (map (fun i => col i (fun x a => String.eqb (strip_live (fst x)) a)) (seqn (List.length hs))) ++
-  ";same=" ++ seps "." (map (fun i => col i (fun x _ => snd x)) (seqn (List.length hs))).
+Definition seqf_model (sp : ApiSeq.store) (per : list (list hres)) (hs : list hstep) : string :=
+  let al := map (alone_txt sp) hs in
+  let shared := map (fun h => match hs_sh h with Some _ => true | None => false end) hs in
+  let agrees (i : nat) (x : hres) : bool :=
+    let a := nth i al "?" in
+    if nth i shared false && String.eqb a nothing_stored then hr_unt x
+    else String.eqb (strip_live (hr_txt x)) a in
+  let col (i : nat) (g : hres -> bool) : string :=
+    String.concat "" (map (fun r => bit (g (nth i r (HRes "?" false false)))) per) in
+  "alone=" ++ seps "." (map (fun i => col i (agrees i)) (seqn (List.length hs))) ++
+  ";same=" ++ seps "." (map (fun i => col i hr_same) (seqn (List.length hs))).
 
 (* H1: every collection of the object forwards and backwards (each kind of key rendering is followed by each
    neighbouring other one in one of the two directions), then a Get and a GetTo into the collections *)
@@ -396,12 +458,107 @@ Definition history_other (sel : nat) (n : node) (v : val) (ends colls : list (li
      (combine (seqn (List.length cs)) cs) ++
    match eps with [] => [] | e :: _ => [get_step false n v e] end)%list.
 
-Definition hist_lines (u : string) (n : node) (pas : list partner) (vi : nat) (v : val) : list string :=
+(* ---------- histories that share one result buffer ----------
+   A caller hands the same result buffer to GetTo after GetTo: the buffer then holds the answer of the call before -
+   after a struct field a pointer INTO the object, after a map entry or an element of builtin type a pointer to a
+   local copy.  The steps are chosen so that answers of the SAME type follow each other (a reference into an object
+   first, references to copies after it), on the object, on a second object of the same type and on partner objects
+   of other units, with one call that stores nothing in between. *)
+
+(* a path whose GetTo stores a reference: the path, the type of the place the reference is to, is the place a copy *)
+Record rmember := RMember { rm_path : list string; rm_key : string; rm_copy : bool }.
+
+Definition members (n : node) (v : val) : list rmember :=
+  flat_map (fun p =>
+    match get_to false n (APtr (Some v)) p None with
+    | Ret (Some r) None =>
+      match GenC01.node_at n (r_loc r) with
+      | Some en => [RMember p (star (n_ptr en) ++ n_typn en) (r_copy r)]
+      | None => []
+      end
+    | _ => []
+    end) (end_paths n v).
+
+Definition of_key (k : string) (ms : list rmember) : list rmember := filter (fun m => String.eqb (rm_key m) k) ms.
+Definition live_ms (ms : list rmember) : list rmember := filter (fun m => negb (rm_copy m)) ms.
+Definition copy_ms (ms : list rmember) : list rmember := filter rm_copy ms.
+
+(* of one type: a reference into the object first, then up to two copies, then more references into the object *)
+Definition pick3 (g : list rmember) : list rmember :=
+  take 3 (take 1 (live_ms g) ++ take 2 (copy_ms g) ++ skipn 1 (live_ms g))%list.
+
+(* a path on which GetTo stores nothing and returns no error (absent key, unknown field, index out of range, ...) *)
+Definition miss_paths (n : node) (v : val) : list (list string) :=
+  map fst (filter (fun pt : tagged =>
+                     negb (String.eqb (snd pt) "end") &&
+                     String.eqb (GenC01.pr_out n None (get_to false n (APtr (Some v)) (fst pt) rb0)) "e=nil;v=same;live=0")
+                  (paths n v)).
+
+(* partners by the type of the answer: per type, the first unit (in its most populated value) with a reference into
+   the object of that type, and the first with a reference to a copy *)
+Definition rpartner := (string * bool * partner)%type.
+Definition rpartners_of (us : list (string * ty)) : list rpartner :=
+  fold_left (fun (acc : list rpartner) (u : string * ty) =>
+    let n := root_node u in
+    match rev (variants n) with
+    | [] => acc
+    | v :: _ =>
+      fold_left (fun (acc : list rpartner) (m : rmember) =>
+                   if existsb (fun x : rpartner => String.eqb (fst (fst x)) (rm_key m) && Bool.eqb (snd (fst x)) (rm_copy m)) acc
+                   then acc else (acc ++ [(rm_key m, rm_copy m, (fst u, n, v, rm_path m))])%list)
+                (members n v) acc
+    end) us [].
+Definition find_rpartner (k : string) (cp : bool) (rps : list rpartner) : option partner :=
+  match filter (fun x : rpartner => String.eqb (fst (fst x)) k && Bool.eqb (snd (fst x)) cp) rps with
+  | x :: _ => Some (snd x)
+  | [] => None
+  end.
+
+Definition xbget_step (obj : nat) (pa : partner) : hstep :=
+  let '(u2, n2, v2, p2) := pa in
+  bget_step "xbgetto" ("xbgetto;" ++ u2 ++ ";" ++ pr_val true v2) obj n2 v2 p2.
+
+(* H3: the steps and the partners they run on (objects 2.. of the store) *)
+Definition history_buf (sel : nat) (n : node) (v : val) (rps : list rpartner) : list hstep * list partner :=
+  let ms := members n v in
+  let keys := dedup (map rm_key ms) in
+  let many := filter (fun k => Nat.leb 2 (List.length (of_key k ms))) keys in
+  let both := filter (fun k => let g := of_key k ms in
+                               negb (Nat.eqb (List.length (live_ms g)) 0) && negb (Nat.eqb (List.length (copy_ms g)) 0)) many in
+  let rest := filter (fun k => negb (existsb (String.eqb k) both)) many in
+  let gs := map (fun k => pick3 (of_key k ms)) (take 2 (rot sel both ++ rot sel rest)%list) in
+  let on_obj (m : rmember) := bget_step "bgetto" "bgetto" 0 n v (rm_path m) in
+  let miss := match rot sel (take 4 (miss_paths n v)) with
+              | p :: _ => [bget_step "bmiss" "bgetto" 0 n v p]
+              | [] => []
+              end in
+  (* the object, a call that stores nothing, the next type *)
+  let own := match gs with
+             | [] => []
+             | g :: r => (map on_obj g ++ miss ++ flat_map (map on_obj) r)%list
+             end in
+  (* the second object: into the object, then the same type out of the second object *)
+  let second := match gs with
+                | (a :: b :: _) :: _ => [on_obj a; bget_step "obgetto" "obgetto" 1 n v (rm_path b)]
+                | _ => []
+                end in
+  (* partners: a reference into the object, then the same type as a copy out of a partner; a reference into a
+     partner, then the same type as a copy out of the object *)
+  let with_partner (cp : bool) (cands : list rmember) : list (rmember * partner) :=
+    take 1 (flat_map (fun m => match find_rpartner (rm_key m) cp rps with Some pa => [(m, pa)] | None => [] end)
+                     (rot sel cands)) in
+  let out := with_partner true (live_ms ms) in
+  let inn := with_partner false (copy_ms ms) in
+  let pas := (map snd out ++ map snd inn)%list in
+  let outs := flat_map (fun mp : rmember * partner => [on_obj (fst mp); xbget_step 2 (snd mp)]) out in
+  let inns := flat_map (fun mp : rmember * partner => [xbget_step (2 + List.length out) (snd mp); on_obj (fst mp)]) inn in
+  ((own ++ second ++ outs ++ inns)%list, pas).
+
+Definition hist_lines (u : string) (n : node) (pas : list partner) (rps : list rpartner) (vi : nat) (v : val) : list string :=
   let ends := end_paths n v in
   let colls := filter (fun p => is_coll (loop_demand n v p)) ends in
-  if negb (existsb (live_path n v) colls) then [] else
   let value := pr_val true v in
-  let mk (name : string) (sel : nat) (hs : list hstep) : list string :=
+  let mk (name : string) (sel : nat) (pas : list partner) (hs : list hstep) : list string :=
     let id := u ++ "." ++ nat_to_string vi ++ "." ++ name in
     let tags := "hist," ++ name ++ "," ++ tags_of (map (fun h => Inner (hs_tag h) "" (fun _ => "") OLoop) hs) in
     let steps := seps "|" (map hs_text hs) in
@@ -414,7 +571,10 @@ Definition hist_lines (u : string) (n : node) (pas : list partner) (vi : nat) (v
            (seq_model (nth fi per [])) "*" ] in
   (* the partner rotates with the unit as well as with the value *)
   let us := fold_left (fun a c => a + nat_of_ascii c) (list_ascii_of_string u) 0 in
-  (mk "same" vi (history_same vi n v ends colls) ++ mk "other" (S vi) (history_other (us + vi) n v ends colls pas))%list.
+  ((if negb (existsb (live_path n v) colls) then [] else
+    (mk "same" vi pas (history_same vi n v ends colls) ++ mk "other" (S vi) pas (history_other (us + vi) n v ends colls pas))%list) ++
+   (let '(hs, bpas) := history_buf (us + vi) n v rps in
+    if Nat.ltb (List.length hs) 2 then [] else mk "buf" (2 + vi) bpas hs))%list.
 
 (* the same value with every string key of every map made longer than any other rendered key (an index, a number):
    a key text of the first Loop that outlives it in the caller's buffer is then wholly covered by the next rendering *)
@@ -546,11 +706,11 @@ Definition hostile_lines (u : string) (n : node) (v : val) : list string :=
       pure_line u (u ++ "." ++ f ++ ".other") "nilform,other" "p" value "*" (map (fun x => snd (fst x)) (others f)) ])
     ["np"; "npp"; "nilpp"; "nil"])%list.
 
-Definition case_lines (pas : list partner) (u : string * ty) : list string :=
+Definition case_lines (pas : list partner) (rps : list rpartner) (u : string * ty) : list string :=
   let n := root_node u in
   let vs := variants n in
   (flat_map (fun iv : nat * val => let '(vi, v) := iv in
-              (path_lines (fst u) n vi v ++ value_lines (fst u) n vs vi v ++ hist_lines (fst u) n pas vi v)%list)
+              (path_lines (fst u) n vi v ++ value_lines (fst u) n vs vi v ++ hist_lines (fst u) n pas rps vi v)%list)
            (combine (seqn (List.length vs)) vs) ++
   match vs with
   | v0 :: _ =>
@@ -561,10 +721,11 @@ Definition case_lines (pas : list partner) (u : string * ty) : list string :=
       if val_eqb vinf (last vs v0) then [] else value_lines (fst u) n vs 900 vinf) ++
      (* histories on the most populated value with long string keys *)
      (let vlong := long_keys (last vs v0) in
-      if val_eqb vlong (last vs v0) then [] else hist_lines (fst u) n pas 901 vlong))%list
+      if val_eqb vlong (last vs v0) then [] else hist_lines (fst u) n pas rps 901 vlong))%list
   | [] => []
   end)%list.
 
 Definition cases (tier : Z) (seed : Z) : list string :=
   let pas := partners_of (emit_units tier) in
-  flat_map (case_lines pas) (emit_units tier).
+  let rps := rpartners_of (emit_units tier) in
+  flat_map (case_lines pas rps) (emit_units tier).
